@@ -352,6 +352,13 @@ func (p *Pruner) applyTimeFloor(standardFloor uint64) uint64 {
 }
 
 func (p *Pruner) onNewBlock(ctx context.Context, block *core.Block) error {
+	// A new head at or below the sampled height means the blocks from there on were replaced by
+	// a reorg; the replacements may be younger than the minimum age, so the sample no longer
+	// vouches for them. The next tick samples upwards again from here.
+	if p.minAge > 0 && block.Number < p.latestSampledHeight {
+		p.latestSampledHeight = block.Number
+	}
+
 	l1Head, err := core.GetL1Head(p.database)
 	if err != nil {
 		if errors.Is(err, db.ErrKeyNotFound) {
